@@ -204,6 +204,18 @@ def main(tier):
                             signs += [(1, -1), (-1, 1)]
                         for sx, sy in signs:
                             tasks.append({'fn': fn, 'ga': ga, 'gb': gb, 'wx': wx, 'wy': wy, 'sx': sx, 'sy': sy})
+    # beyond the u128 fast path (ordering only: digit-count and digit-wise comparison), a few gaps, every entry point of cmp
+    if tier == 'quick':
+        i5 = 0
+        for g in (1, 19, 20, 3):
+            for (ga, gb) in ((g, 0), (0, g)):
+                for (wx, wy) in ((5, 5), (5, 4), (4, 5)):
+                    i5 += 1
+                    if g == 3 and (wx, wy) != (5, 5):
+                        continue
+                    fn = ('cmp', 'ref_cmp', 'partial_cmp', 'ref_partial_cmp')[i5 % 4]
+                    sx = 1 if i5 % 3 else -1
+                    tasks.append({'fn': fn, 'ga': ga, 'gb': gb, 'wx': wx, 'wy': wy, 'sx': sx, 'sy': sx})
     # scale differences that do not fit u64 / i64
     for fn in ('eq', 'cmp', 'ref_cmp', 'ref_eq_ref'):
         for (sa, sb) in [(2 ** 63 - 1, -2 ** 63), (-2 ** 63, 2 ** 63 - 1), (2 ** 63 - 1, -1), (-2, 2 ** 63 - 1), (2 ** 62, -2 ** 62)]:
@@ -212,7 +224,7 @@ def main(tier):
                     tasks.append({'fn': fn, 'ga': sa, 'gb': sb, 'wx': wx, 'wy': wy, 'sx': sx, 'sy': sy, 's0': 0})
     tasks.sort(key=lambda t: -(t['wx'] * t['wy']))
     rep.required_labels = {'eq:True', 'eq:False', 'cmp:Less', 'cmp:Equal', 'cmp:Greater'}
-    rep.bounds = {'magnitudes': '< 2^%d (every combination of 32-bit word counts 0..%d, words symbolic)' % (32 * W, W), 'gaps': gaps,
+    rep.bounds = {'magnitudes': '< 2^%d (every combination of 32-bit word counts 0..%d, words symbolic); quick adds ordering at 4-5 words (beyond u128) for gaps 1,3,19,20' % (32 * W, W), 'gaps': gaps,
                   'scale_difference_overflow_cases': 'i64 extremes, concrete', 's0': 'symbolic |s0| <= 2^60', 'entry points': list(FUNCS)}
     rep.assumptions = ['BigUint::bits / iter_u32_digits / to_radix_le / comparison contracts of num-bigint', 'count_decimal_digits_uint substituted by its contract (C18)',
                        'lt/le/gt/ge/max/min/sort are core default methods determined by cmp/partial_cmp']
